@@ -382,6 +382,7 @@ def task_process_message(cls, registered):
                      "process_message raised %s" % (e,))
             return
         run.cover("cover[%s]/post" % tag)
+        run.oblige("C12|process_message[%s]/returned-normally-on-this-path(any router state, any sender)" % tag, z3.BoolVal(True))
         st1 = snapshot(r)
         e = z3.Const("e", Val)
         fc, fd = tag in FROM_CLIENT_TAGS, tag in FROM_DEVICE_TAGS
